@@ -233,9 +233,138 @@ Proof.
   - unfold canon_streaminfo. cbn [si_md5]. destruct (all_zero a4) eqn:Z; [exact I|exact Z].
   - unfold write_streaminfo. cbn [si_minb si_maxb si_minf si_maxf si_rate si_ch si_bps si_total si_md5].
     change (2 ^ 24) with 16777216. change (2 ^ 20) with 1048576. change (2 ^ 36) with 68719476736.
-    destruct (N.ltb_spec a 16777216) as [_|Hx]; [|lia].
-    destruct (N.ltb_spec a0 16777216) as [_|Hx]; [|lia]. 
+    replace (c + 1 - 1) with c by lia.
     destruct (N.ltb_spec a1 16777216) as [_|Hx]; [|lia].
     destruct (N.ltb_spec a2 16777216) as [_|Hx]; [|lia].
-  all: fail.
-Abort.
+    destruct (N.ltb_spec rate 1048576) as [_|Hx]; [|lia].
+    destruct (N.ltb_spec c 8) as [_|Hx]; [|lia].
+    unfold bitcount_checked_sub. replace (cnt + 1 - 1) with cnt by lia.
+    destruct (N.leb_spec 1 (cnt + 1)) as [_|Hx]; [|lia].
+    destruct (N.leb_spec cnt 31) as [_|Hx]; [|lia].
+    destruct (N.ltb_spec total 68719476736) as [_|Hx]; [|lia].
+    cbn [negb]. eexists. split; [reflexivity|].
+    rewrite <- !app_assoc. rewrite <- Ea3. do 5 f_equal.
+    destruct (all_zero a4) eqn:Z; [|reflexivity].
+    apply all_zero_true_eq in Z. rewrite L16 in Z. rewrite <- Z. reflexivity.
+Qed.
+
+(* ---- PADDING *)
+Lemma padding_write_read size r : read_padding size (zerosN size ++ r) = Ok (size, r).
+Proof.
+  unfold read_padding. rewrite (pbind_eq (skip size) _ _ tt r) by (apply skip_app_len, lenN_zerosN). reflexivity.
+Qed.
+Lemma padding_read_inv size s n r : read_padding size s = Ok (n, r) ->
+  n = size /\ exists a, s = a ++ r /\ lenN a = size.
+Proof.
+  unfold read_padding. intros H. inv_bind H. destruct a. apply skip_ok in E.
+  unfold pret in H. apply Ok_inj in H. injection H as <- <-. split; [reflexivity|exact E].
+Qed.
+
+(* ---- APPLICATION *)
+Definition ty_application (a : application) : Prop := app_id a < 4294967296 /\ Forall byte (app_data a).
+
+Lemma application_write_read a r : app_id a < 4294967296 ->
+  read_application (4 + lenN (app_data a)) (be_bytes 4 (app_id a) ++ app_data a ++ r) = Ok (a, r).
+Proof.
+  intros H. unfold read_application.
+  rewrite (pbind_eq (read_be 4) _ _ (app_id a) _) by (apply read_be4_app, H).
+  destruct (N.ltb_spec (4 + lenN (app_data a)) 4) as [Hx|_]; [lia|].
+  replace (4 + lenN (app_data a) - 4) with (lenN (app_data a)) by lia.
+  rewrite (pbind_eq (take _) _ _ (app_data a) r) by apply take_app. destruct a; reflexivity.
+Qed.
+Lemma application_read_inv size s a r : Forall byte s -> read_application size s = Ok (a, r) ->
+  ty_application a /\ 4 <= size /\ lenN (app_data a) = size - 4 /\ s = be_bytes 4 (app_id a) ++ app_data a ++ r.
+Proof.
+  intros Hs H. unfold read_application in H. inv_bind H.
+  apply (read_be_ok 4) in E; [|exact Hs]. destruct E as [-> B]. apply Forall_app_r in Hs.
+  destruct (N.ltb_spec size 4) as [Hx|Hx]; [discriminate|].
+  inv_bind H. apply take_ok in E. destruct E as [-> L]. unfold pret in H. apply Ok_inj in H. injection H as <- <-.
+  cbn [app_id app_data]. change (256 ^ N.of_nat 4) with 4294967296 in B.
+  split; [split; [exact B|eapply Forall_app_l; exact Hs]|]. auto.
+Qed.
+
+(* ---- Contiguous::try_collect against an encoder *)
+Section ContiguousCodec.
+  Context {T : Type}.
+  Variable valid_first : T -> bool.
+  Variable is_next : T -> T -> res bool.
+  Variable MAX : N.
+  Variable p : parser T.
+  Variable enc : T -> list N.
+  Variable good : T -> Prop.
+
+  Definition chain_ok (rev_items : list T) (l : list T) : Prop :=
+    match rev_items with
+    | [] => is_contiguous valid_first is_next l = true
+    | last :: _ => contiguous_from is_next last l = true
+    end.
+
+  Fixpoint enc_all (l : list T) : list N :=
+    match l with [] => [] | x :: r => enc x ++ enc_all r end.
+
+  Hypothesis p_enc : forall x rest, good x -> p (enc x ++ rest) = Ok (x, rest).
+
+  Lemma try_collect_enc : forall l fuel rev_items len r,
+    Forall good l -> (length l <= length fuel)%nat ->
+    len + lenN l <= MAX -> chain_ok rev_items l ->
+    try_collect valid_first is_next MAX p fuel (lenN l) rev_items len (enc_all l ++ r)
+    = Ok (rev rev_items ++ l, r).
+  Proof.
+    induction l as [|x l IH]; intros fuel rev_items len r G F M C.
+    - destruct fuel; cbn [try_collect lenN enc_all app N.eqb]; rewrite app_nil_r; reflexivity.
+    - inversion G as [|? ? Gx Gl]; subst.
+      destruct fuel as [|f0 fuel]; [cbn in F; lia|].
+      cbn [try_collect lenN enc_all]. rewrite <- app_assoc.
+      destruct (N.eqb_spec (N.succ (lenN l)) 0) as [Hx|_]; [lia|].
+      rewrite p_enc by exact Gx. unfold try_push.
+      cbn [lenN] in M.
+      destruct (N.ltb_spec len MAX) as [_|Hx]; [|lia].
+      assert (Hnext : match rev_items with [] => Ok (valid_first x) | last :: _ => is_next x last end = Ok true
+                      /\ contiguous_from is_next x l = true).
+      { unfold chain_ok in C. destruct rev_items as [|last ?].
+        - cbn [is_contiguous] in C. apply andb_prop in C. destruct C as [-> C]. auto.
+        - cbn [contiguous_from] in C. destruct (is_next x last) as [[|]| |]; try discriminate. auto. }
+      destruct Hnext as [-> Cn]. cbn [bind].
+      rewrite N.pred_succ. rewrite IH; [|exact Gl|cbn in F; lia|lia|exact Cn].
+      cbn [rev]. rewrite <- app_assoc. reflexivity.
+  Qed.
+
+  (* the reverse: what a successful collect returns *)
+  Hypothesis p_inv : forall s x r, Forall byte s -> p s = Ok (x, r) ->
+    good x /\ exists c, s = c ++ r /\ lenN c = lenN (enc x).
+
+  Lemma try_collect_inv : forall fuel n rev_items len s out r,
+    Forall byte s ->
+    try_collect valid_first is_next MAX p fuel n rev_items len s = Ok (out, r) ->
+    exists l, out = rev rev_items ++ l /\ lenN l = n /\ Forall good l /\ chain_ok rev_items l /\
+              (l <> [] -> len + n <= MAX) /\ lenN s = lenN (enc_all l) + lenN r /\ Forall byte r.
+  Proof.
+    induction fuel as [|f0 fuel IH]; intros n rev_items len s out r Hs H.
+    - cbn [try_collect] in H. destruct (N.eqb_spec n 0) as [->|Hn].
+      + apply Ok_inj in H. injection H as <- <-. exists []. rewrite app_nil_r.
+        repeat split; auto. { unfold chain_ok. destruct rev_items; reflexivity. } congruence.
+      + destruct (p s) as [[x s']| |]; try discriminate.
+        destruct (try_push valid_first is_next MAX rev_items len x) as [[?|]| |]; discriminate.
+    - cbn [try_collect] in H. destruct (N.eqb_spec n 0) as [->|Hn].
+      + apply Ok_inj in H. injection H as <- <-. exists []. rewrite app_nil_r.
+        repeat split; auto. { unfold chain_ok. destruct rev_items; reflexivity. } congruence.
+      + destruct (p s) as [[x s']| |] eqn:P; try discriminate.
+        apply p_inv in P; [|exact Hs]. destruct P as [Gx (c & -> & Lc)].
+        pose proof (Forall_app_r _ _ _ Hs) as Hs'.
+        unfold try_push in H. destruct (N.ltb_spec len MAX) as [Hlt|Hge]; [|discriminate].
+        destruct (match rev_items with [] => Ok (valid_first x) | last :: _ => is_next x last end) as [[|]| |] eqn:Nx;
+          cbn [bind] in H; try discriminate.
+        apply IH in H; [|exact Hs']. destruct H as (l & -> & Ll & Gl & Cl & Ml & Len & Hr).
+        exists (x :: l). cbn [rev]. rewrite <- app_assoc. cbn [app].
+        split; [reflexivity|]. split; [cbn [lenN]; lia|]. split; [constructor; assumption|].
+        split.
+        { unfold chain_ok in *. destruct rev_items as [|last ?].
+          - cbn [is_contiguous]. apply Ok_inj in Nx. rewrite Nx. exact Cl.
+          - cbn [contiguous_from]. rewrite Nx. exact Cl. }
+        split.
+        { intros _. destruct l as [|y l'].
+          - cbn [lenN] in Ll. lia.
+          - assert (N.succ len + N.pred n <= MAX) by (apply Ml; discriminate). lia. }
+        split; [|exact Hr]. cbn [enc_all]. rewrite !lenN_app. lia.
+  Qed.
+End ContiguousCodec.
